@@ -75,6 +75,17 @@ var Docs = []string{
 	/*11*/ `{}`,
 	/*12*/ `{"v": "st", "w": 3}`,
 	/*13*/ `{"a": "cx"}`,
+	/*14*/ `{"a": 1, "b": }`,
+	/*15*/ `[1, 2,, 3]`,
+	/*16*/ `{"a": 1, "b": "s"}}`,
+	/*17*/ `{"a": x, "b": "s"}`,
+	/*18*/ `{"id": 7, "flag": false}`,
+	/*19*/ `{"id": "x7", "flag": null}`,
+	/*20*/ `{"id": true, "flag": false}`,
+	/*21*/ `{"id": 7, "flag": "no"}`,
+	/*22*/ `{"v": true, "w": "x"}`,
+	/*23*/ `{"v": 1, "w": 2}`,
+	/*24*/ `{"a": 1, "b": "s"} ]`,
 }
 
 // Schemas: type specs first (indices are referenced by the roots below).
@@ -107,6 +118,9 @@ func init() {
 	t("t_m1", `{"x": @m1}`)
 	t("t_m2", `{"yy":  @m2}`)
 	t("t_empty", ``)
+	// inline or-sets with DIFFERENT alternatives: each type owns anonymous types
+	t("t_id", `1 // {or: [{type: "integer"}, {type: "string"}]}`)
+	t("t_flag", `  true // {or: [{type: "boolean"}, {type: "null"}]}`)
 	Schemas = append(Schemas, SchemaSpec{ID: "t_enum", Text: `"a" // {enum: @e}`, IsType: true, Rules: []RuleRef{{"@e", 0}}})
 	Schemas = append(Schemas, SchemaSpec{ID: "t_hoist", Text: `{"u": @u}`, IsType: true, Types: []TypeRef{ty("@u", "t_num")}})
 
@@ -127,6 +141,8 @@ func init() {
 	r("r_self", "{\n  \"id\": 1,\n  \"tags\": [\"t\"],\n  \"next\": @node // {optional: true}\n}", nil, TypeRef{Name: "@node", Kind: KSelf})
 	r("r_or", "{\n  \"v\": 1, // {or: [{type: \"integer\", min: 0}, {type: \"string\", minLength: 2}]}\n  \"w\": @or | @num\n}", nil,
 		ty("@or", "t_or"), ty("@num", "t_num"))
+	r("r_idflag", `{"id": @id, "flag": @flag}`, nil, ty("@id", "t_id"), ty("@flag", "t_flag"))
+	r("r_ownor", "{\n  \"v\": true, // {or: [{type: \"boolean\"}, {type: \"null\"}]}\n  \"w\": @id\n}", nil, ty("@id", "t_id"))
 	r("r_allof", "{ // {allOf: \"@base\"}\n  \"k\": 1\n}", nil, ty("@base", "t_base"))
 	r("r_allof2", "{ // {allOf: \"@base\"}\n  \"k\": 1\n}", nil, ty("@base", "t_base2"))
 	r("r_uset", `{"a": @t}`, nil, ty("@t", "t_allof"), ty("@base", "t_base"))
